@@ -99,6 +99,7 @@ type engineState struct {
 	panicStack string
 	uuidN      int
 	pools      map[*value][]value // sync.Pool model: LIFO free list per pool
+	files      map[*value]string  // modelled *os.File handles -> path in the mbolt registry
 }
 
 func (i *interpreter) noteStub(s string) {
